@@ -30,11 +30,14 @@ def texts_for(files, variant=0):
             'grammar;\npub T: () = "x" => ( ;\n',                      # does not parse
             'grammar;\nT: () = "x" => ();\n']                          # no public symbol
     out = {}
-    for f in files:
+    for k, f in enumerate(files):
+        # the texts of the first file share a long identical head (> 64 KiB of comments) and differ only
+        # after it, so that "same text?" cannot be decided from a prefix of the file
+        head = ("// %s\n" % ("padding " * 12)) * 720 if k == 0 else ""
         out[f] = {
-            "A": '// grammar %s, text A\ngrammar;\npub T: () = "a" => ();\n' % f,
-            "B": '// grammar %s, text B\ngrammar;\npub T: u32 = { "b" <x:U> => x, "d" => 0 };\nU: u32 = "c"+ => 1;\n' % f,
-            "Bad": ('// grammar %s, rejected\n' % f) + bads[variant % len(bads)],
+            "A": head + '// grammar %s, text A\ngrammar;\npub T: () = "a" => ();\n' % f,
+            "B": head + '// grammar %s, text B\ngrammar;\npub T: u32 = { "b" <x:U> => x, "d" => 0 };\nU: u32 = "c"+ => 1;\n' % f,
+            "Bad": head + ('// grammar %s, rejected\n' % f) + bads[variant % len(bads)],
         }
     return out
 
